@@ -89,6 +89,7 @@ const (
 	modeOK        = iota
 	modeFailProto // handler answers with an internalpb.Error: the batch is not delivered
 	modeFailConn  // handler fails: the server closes the connection without a reply
+	modeLostReply // the batch IS delivered, then the connection is closed without a reply (the response is lost)
 )
 
 type tellServer struct {
@@ -148,6 +149,10 @@ func (s *tellServer) handler(_ context.Context, _ inet.Connection, req proto.Mes
 	case modeFailConn:
 		return nil, errors.New("scripted failure")
 	}
+	br := ""
+	if mode == modeLostReply {
+		br = "lostreply"
+	}
 	ids := make([]int, 0, len(r.GetRemoteMessages()))
 	mds := make([]int, 0, len(r.GetRemoteMessages()))
 	for _, m := range r.GetRemoteMessages() {
@@ -155,7 +160,10 @@ func (s *tellServer) handler(_ context.Context, _ inet.Connection, req proto.Mes
 		mds = append(mds, mdID(m))
 	}
 	if t := s.tr.Load(); t != nil {
-		t.put(line{Op: "dlv", IDs: ids, MDs: mds})
+		t.put(line{Op: "dlv", Br: br, IDs: ids, MDs: mds})
+	}
+	if mode == modeLostReply {
+		return nil, errors.New("scripted: reply lost")
 	}
 	return &internalpb.RemoteTellResponse{}, nil
 }
@@ -406,8 +414,10 @@ walk:
 			want = argS(x, 0)
 		case "WFlush":
 			want = argS(x, 0)
-			if want == "TRUE" {
+			if want == "ok" {
 				srv.mode.Store(modeOK)
+			} else if want == "lost" {
+				srv.mode.Store(modeLostReply)
 			} else if (st.Runs+i)%2 == 0 {
 				srv.mode.Store(modeFailProto)
 			} else {
@@ -701,7 +711,7 @@ func coalStressMain(args []string) {
 			smu.Lock()
 			defer smu.Unlock()
 			if srng.Intn(100) < failPct {
-				return modeFailProto + srng.Intn(2)
+				return modeFailProto + srng.Intn(3) // proto error | connection closed | delivered but the reply is lost
 			}
 			return modeOK
 		}
